@@ -141,8 +141,6 @@ var panicsA, panicsB = &panicLog{}, &panicLog{}
 
 type panicMark struct{ a, b int }
 
-var expectedPanics atomic.Int64 // kept for symmetry with the requested-panic text filter
-
 func markPanics() panicMark { return panicMark{a: panicsA.count(), b: panicsB.count()} }
 
 func newPanics(m panicMark) []string {
@@ -156,6 +154,9 @@ func newPanics(m panicMark) []string {
 	return res
 }
 
+// panicsWithBuffer: the current case uses an event with Buffer > 0 (set by the case)
+var panicsWithBuffer atomic.Bool
+
 // checkPanics judges the framework panics of a case. Call it after checkTermInSub.
 func checkPanics(res *result, m panicMark) []string {
 	lines := newPanics(m)
@@ -163,7 +164,11 @@ func checkPanics(res *result, m panicMark) []string {
 		if strings.Contains(l, "panic on handling received message") {
 			connSuspect.Store(true)
 		}
-		if strings.Contains(l, "TypeAssertionError") || (strings.Contains(l, "interface conversion") && strings.Contains(l, "MessageEvent")) {
+		if strings.Contains(l, "TypeAssertionError") || (strings.Contains(l, "interface conversion") && strings.Contains(l, "MessageEvent")) ||
+			(panicsWithBuffer.Load() && strings.Contains(l, "nil pointer dereference")) {
+			// nil Value() of an evicted item, or a torn interface read of it (type word still set, data word
+			// already nil: SIGSEGV in the type assertion of RouteLinkEvent/RouteMonitorEvent, stack confirmed
+			// with a norecover build)
 			res.violate("subscribe-vs-publish-buffer-race", "framework panic while a subscriber read the event buffer: %s", trim(l, 300))
 		} else if res.sig != "subscribe-vs-publish-buffer-race" {
 			res.violate("framework-panic-in-event-path", "framework panic during the case: %s", trim(l, 300))
@@ -276,27 +281,60 @@ func anyRemote(subs []*actor) bool {
 // has been read AND completely handled by the peer: the peers' in-counters equal the out-counters
 // (read in an order that makes equality hold at the instant of the snapshot: counters are monotone and
 // in <= out), and in a stop-the-world goroutine snapshot no receive-queue handler goroutine exists and
-// every connection reader is blocked in a socket read (not between "frame read" and "handler started").
+// every connection reader is blocked in a socket read (not between "frame read" and "handler started"),
+// and no goroutine with framework frames is running or runnable (nothing of the framework can make
+// progress without a new stimulus).
 func netQuiescent() bool {
 	ra, e1 := nodeA.Network().Node(nodeB.Name())
 	rb, e2 := nodeB.Network().Node(nodeA.Name())
-	if e1 != nil || e2 != nil {
-		return false
+	if (e1 == nil) != (e2 == nil) {
+		return false // one side still holds the connection
 	}
-	inB, inA := rb.Info().MessagesIn, ra.Info().MessagesIn
+	var inB, inA uint64
+	if e1 == nil {
+		inB, inA = rb.Info().MessagesIn, ra.Info().MessagesIn
+	}
 	buf := make([]byte, 4<<20)
 	n := runtime.Stack(buf, true)
-	outA, outB := ra.Info().MessagesOut, rb.Info().MessagesOut
-	if inB != outA || inA != outB || n == len(buf) {
+	if n == len(buf) {
 		return false
 	}
-	for _, g := range strings.Split(string(buf[:n]), "\n\n") {
-		if strings.Contains(g, "handleRecvQueue") {
+	if e1 == nil {
+		// (no connection on either side: nothing can be in flight; only the goroutine conditions apply)
+		outA, outB := ra.Info().MessagesOut, rb.Info().MessagesOut
+		if inB != outA || inA != outB {
 			return false
 		}
-		if strings.Contains(g, "(*connection).serve(") && !strings.Contains(g, "internal/poll.(*FD).Read") {
-			return false
+	}
+	for i, g := range strings.Split(string(buf[:n]), "\n\n") {
+		// no framework goroutine (other than the caller, first in the dump) can make progress on its own:
+		// running / runnable — includes goroutines that were created by framework code and have not run yet
+		if i > 0 && strings.Contains(g, "ergo.services/ergo/") {
+			if nl := strings.IndexByte(g, '\n'); nl > 0 {
+				if h := g[:nl]; strings.Contains(h, "[running") || strings.Contains(h, "[runnable") || strings.Contains(h, "[syscall") {
+					return false
+				}
+			}
 		}
+		// any goroutine of the network layer (a receive-queue handler — also one that was created by
+		// serve() and has not run yet: its only frame is serve.gowrapN —, a sender, a flusher callback)
+		// except a connection reader blocked in the socket read
+		if !strings.Contains(g, "ergo/net/proto.") && !strings.Contains(g, "lib.(*flusher)") && !strings.Contains(g, "lib.NewFlusher") {
+			continue
+		}
+		if strings.Contains(g, "(*connection).serve(") && strings.Contains(g, "internal/poll.(*FD).Read") {
+			continue
+		}
+		if strings.Contains(g, "internal/poll.(*FD).Accept") {
+			continue // acceptor
+		}
+		if strings.Contains(g, "(*connection).wait(") && strings.Contains(g, "sync.(*WaitGroup).Wait") {
+			continue // the connection's life-time waiter (enp.Serve)
+		}
+		if dbgOn && os.Getenv("C18_DEBUG") == "2" {
+			dbg("netQuiescent: active goroutine:\n%s", g)
+		}
+		return false
 	}
 	return true
 }
@@ -398,11 +436,11 @@ func errStr(e error) string {
 
 func main() {
 	hk.InstallHook()
-	hk.Rule("seq: seeded sequential histories (register, publish by owner/delegate, wrong-token publish, link/monitor by local and remote subscribers, unsubscribe, duplicate (un)subscribe, unregister, owner kill/exit/panic, optional subscriber death) decided against an exact reference model after quiescence of every step; " +
-		"conc: seeded concurrent churn (1-3 publishers holding the token publish batches while 2-9 local/remote subscribers subscribe, unsubscribe or die at PRNG publication counts, yield-point stress at event.sub.added/link.checked/mpsc.push/proc.unreg.event, then the event is unregistered or its owner killed); " +
-		"park: the subscriber (or the connection handler acting for a remote one) is parked at event.sub.added / link.checked while the producer publishes k messages (with and without eviction from the bounded buffer) or unregisters; " +
+	hk.Rule("seq: seeded sequential histories (register, publish by owner/delegate, wrong-token publish, link/monitor by local and remote subscribers, unsubscribe, duplicate (un)subscribe, unregister, owner kill/exit/panic, optional subscriber death) decided against an exact reference model after quiescence of every step (never counted non-trivial: nothing overlaps); " +
+		"conc: seeded concurrent churn (1-3 publishers holding the token publish batches, optionally a process without the token publishes too, while 2-9 local/remote subscribers subscribe, unsubscribe or die at PRNG publication counts, yield-point stress at event.sub.added/link.checked/mpsc.push/proc.unreg.event/recv.pushed/send.pick; afterwards a quiescent probe subscriber, then the event is unregistered or its owner killed/exits); " +
+		"park: the subscriber (or the connection handler acting for a remote one) is parked at event.sub.added while the producer publishes k messages (with and without eviction from the bounded buffer), with a witness subscriber on the same node; park-remote: the owner node's reply to a remote subscribe is parked at send.pick while the producer publishes; park-end: the subscriber is parked at link.checked while the event is unregistered / its owner killed; notify: the first subscriber is lost by kill/exit/node-down, a second one subscribes and unsubscribes; " +
 		"hammer: subscribers subscribe+unsubscribe in a tight loop against a continuously publishing producer with Buffer 1..4. " +
-		"A case is non-trivial iff a SendEvent call overlapped a subscribe call in logical time (measured from the client-side clocks) or, for park cases, iff the gate fired while publications were made. distinct = family x parameters (buffer, notify, subscriber mix, publishers, end mode)")
+		"A case is non-trivial iff a SendEvent call overlapped a subscribe call in logical time (measured from the client-side clocks: conc, hammer) or, for the gate families, iff the gate fired while publications were made / the event was ended. distinct = family x parameters (buffer, notify, publishers, remote subscribers present, deaths, end mode, link/monitor, gate, publications while parked)")
 	hk.Assume("a subscriber process subscribes to a given event at most once in the concurrent families, so its lifetime event log is the live sequence L of that subscription")
 	hk.Assume("remote quiescence is detected with a fence: a regular message sent by the publisher process after its last publication; it relies on per-sender FIFO delivery over one connection (property C13)")
 	hk.Assume("delivery to a remote subscriber that unsubscribes or dies is only required up to what it had received; in-flight publications may be dropped by its node")
@@ -477,7 +515,7 @@ func main() {
 			}
 		}
 	}
-	for _, how := range []string{"kill", "exit", "nodedown"} {
+	for _, how := range []string{"kill", "exit", "remotekill", "nodedown"} {
 		for _, link := range []bool{true, false} {
 			runNotifyDeath(how, link)
 		}
@@ -524,6 +562,7 @@ func runPark(n, k int, link, remote bool) {
 	}
 	res := &result{}
 	pm := markPanics()
+	panicsWithBuffer.Store(n > 0)
 	if remote && !ensureConn() {
 		res.inconclusive("no connection between the nodes")
 		finish(id, "park", id, false, 0, res, nil)
@@ -663,6 +702,7 @@ func runRemoteWindow(n, k int, link bool) {
 	}
 	res := &result{}
 	pm := markPanics()
+	panicsWithBuffer.Store(n > 0)
 	if !ensureConn() {
 		res.inconclusive("no connection between the nodes")
 		finish(id, "park-remote", id, false, 0, res, nil)
@@ -774,6 +814,7 @@ func runSubVsEnd(link, remote bool, how string) {
 	}
 	res := &result{}
 	pm := markPanics()
+	panicsWithBuffer.Store(true)
 	if remote && !ensureConn() {
 		res.inconclusive("no connection between the nodes")
 		finish(id, "park-end", id, false, 0, res, nil)
@@ -864,7 +905,8 @@ func runNotifyDeath(how string, link bool) {
 	}
 	res := &result{}
 	pm := markPanics()
-	remote := how == "nodedown"
+	remote := how == "nodedown" || how == "remotekill"
+	panicsWithBuffer.Store(false)
 	if remote && !ensureConn() {
 		res.inconclusive("no connection between the nodes")
 		finish(id, "notify", id, false, 0, res, nil)
@@ -911,7 +953,7 @@ func runNotifyDeath(how string, link bool) {
 	}
 	// lose the subscriber without an unsubscribe call
 	switch how {
-	case "kill":
+	case "kill", "remotekill":
 		s1.kill()
 	case "exit":
 		s1.tell(cDie{Reason: gen.TerminateReasonNormal})
@@ -943,6 +985,17 @@ func runNotifyDeath(how string, link bool) {
 		}
 	}
 	stC, spC := net()
+	if remote && stC-spC != 0 {
+		// a repaired framework may tell the owner node asynchronously: wait for the Stop, or for the
+		// structural witness that nothing is in flight and no framework goroutine can still act
+		if !hk.WaitUntil(5*time.Second, func() bool {
+			stC, spC = net()
+			return stC-spC == 0 || (netQuiescent() && owner.idle())
+		}) {
+			res.inconclusive("watchdog: neither MessageEventStop nor network quiescence")
+		}
+		stC, spC = net()
+	}
 	if res.incon == "" {
 		if stB-spB != 1 {
 			res.violate("missing-event-start", "a subscriber is present but producer's Start-Stop = %d", stB-spB)
@@ -952,7 +1005,7 @@ func runNotifyDeath(how string, link bool) {
 		}
 	}
 	checkPanics(res, pm)
-	if remote {
+	if how == "nodedown" {
 		ensureConn()
 	}
 	finish(id, "notify", id, false, int64(stC+spC+2), res, map[string]any{"after_loss": []int{stA, spA}, "after_second_subscribe": []int{stB, spB}, "after_last_unsubscribe": []int{stC, spC}})
@@ -1001,6 +1054,7 @@ func runHammer(k int) {
 	res := &result{}
 	pm := markPanics()
 	n := 1 + rng.Intn(4)
+	panicsWithBuffer.Store(true)
 	nsub := 2 + rng.Intn(5)
 	iters := 300 + rng.Intn(700)
 	owner, err := spawnActor(nodeA, false, id+"/owner")
@@ -1171,6 +1225,7 @@ func runConc(k int) {
 	res := &result{}
 	pm := markPanics()
 	n := rng.Intn(5)
+	panicsWithBuffer.Store(n > 0)
 	notify := rng.Intn(2) == 0
 	nPub := 1
 	if rng.Intn(10) < 3 {
